@@ -26,12 +26,12 @@ LEVEL = "fault_enumeration"
 N = 5
 
 
-def drive(searcher, *, interrupt_at: Optional[int], horizon: int, slice_script=None, leap_at_call=None):
+def drive(searcher, *, interrupt_at: Optional[int], horizon: int, slice_script=None, leap_at_call=None, leap_big=False):
     """One call of the real auto_search under a fresh virtual clock.
     Returns (outcome, spec, exception, clock)."""
     dec = env.Decisions()
     clock = env.VirtualClock(dec, slice_default=0, horizon=horizon, interrupt_at=interrupt_at,
-                             slice_script=slice_script, leap_at_call=leap_at_call)
+                             slice_script=slice_script, leap_at_call=leap_at_call, leap_big=leap_big)
     clock.record_stream = True
     spec = None
     exc = None
@@ -246,13 +246,62 @@ def conformance(acc: Acc, cfg: Cfg, horizon: int) -> None:
             )
 
 
+def time_limit_anywhere(acc: Acc, cfg: Cfg, horizon: int) -> None:
+    """The time limit expires at an arbitrary instant: for every index i of a time() call of the
+    run (whatever the call site), time leaps beyond max_expansion_time just before that call.
+    The search stops (or finishes); calling it again must lead to a final result and universe
+    that an interruption at a packet boundary followed by the same further call also gives
+    (or the uninterrupted run).  In the unchanged library the clock is only consulted at the
+    classified sites, so this adds nothing there; it finds code that starts looking at the
+    clock in the middle of a work packet."""
+    base = fresh(cfg)
+    o0, s0, e0, c0 = drive(base, interrupt_at=None, horizon=horizon)
+    if o0 not in ("spec", "notfound"):
+        return
+
+    def finish(x, o, s):
+        if o == "interrupted":
+            o, s, _e, _c = drive(x, interrupt_at=None, horizon=horizon)
+        return (o, sig(s), canon_searcher(x))
+
+    finals = {(o0, sig(s0), canon_searcher(base))}
+    for k in range(1, c0.packets + 1):
+        x = fresh(cfg)
+        o, s, _e, _c = drive(x, interrupt_at=k, horizon=horizon)
+        finals.add(finish(x, o, s))
+    for i in range(1, c0.calls + 1):
+        x = fresh(cfg)
+        o, s, e, _c = drive(x, interrupt_at=None, horizon=horizon, leap_at_call=i, leap_big=True)
+        acc.count("traces")
+        acc.count("evaluations")
+        payload = {"cfg": cfg.to_json(), "tier": "quick", "time_limit_at_call": i, "horizon": horizon}
+        if o.startswith("exception"):
+            acc.violation("exception", o.split("@", 1)[1], cfg.sid(), f"time limit expiring at time() call {i}: {o}: {str(e)[:200]}", payload)
+            return
+        got = finish(x, o, s)
+        if got[0].startswith("exception"):
+            acc.violation("exception", got[0].split("@", 1)[1], cfg.sid(), f"resuming after the time limit expired at time() call {i}: {got[0]}", payload)
+            return
+        if got not in finals:
+            acc.violation("resumed!=uninterrupted", "CombinatorialSpecificationSearcher.auto_search", cfg.sid(),
+                          f"the time limit expires at time() call {i} of {c0.calls} (first call: {o}); calling auto_search again ends with {got[0]}"
+                          f"{'' if got[1] is None else ' (a specification)'}, which no interruption at a packet boundary (1..{c0.packets}) followed by the same call gives "
+                          f"(uninterrupted: {o0})", payload)
+            return
+        acc.nt((cfg.sid(), "limit-at-call", i))
+
+
 def _worker(arg) -> Acc:
     cfgj, tier, conf = arg
     cfg = Cfg.from_json(cfgj)
     acc = Acc()
     explore_cfg(acc, cfg, tier)
-    if conf:
+    if conf and not acc.violations:
+        # (the conformance run presupposes a deterministic library; when this configuration
+        # already shows violations they are reported instead of a harness error)
         conformance(acc, cfg, 30)
+    if conf or hash(cfg.sid()) % (7 if tier == "quick" else 3) == 0:
+        time_limit_anywhere(acc, cfg, 30 if tier == "quick" else 60)
     if hash(cfg.sid()) % 53 == 0:
         acc.sample({"configuration": cfg.sid(), "crash_points": "every packet count k; pickle round trip; continuation to the end; further interruption points"})
     env.clear_library_caches()
@@ -266,6 +315,7 @@ def run(ctx: Ctx) -> None:
         "for every configuration and every work-packet count k (crash point): interrupt the real auto_search at k by the virtual "
         "clock, pickle round trip, continue original and restored to the end and through further interruption points (quick: "
         "the next 3 and the last; thorough: every one), compare with the uninterrupted run having a check point at k; "
+        "for a sub-family, the time limit expiring just before every single time() call of the run (any call site), then the same further call; "
         "non-trivial = distinct (configuration, crash point) pairs"
     )
     ctx.assumptions = ["virtual clock site classification, validated here by the reduction-conformance run (one leap at every time() call index)"]
@@ -276,6 +326,9 @@ def run(ctx: Ctx) -> None:
 
 def replay(acc: Acc, payload: dict) -> None:
     cfg = Cfg.from_json(payload["cfg"])
+    if payload.get("time_limit_at_call") is not None:
+        time_limit_anywhere(acc, cfg, payload["horizon"])
+        return
     if payload.get("k") is None:
         explore_cfg(acc, cfg, payload.get("tier", "quick"), only_k=10**9)
     else:
